@@ -103,6 +103,12 @@ class PyIndex:
                 tree = ast.parse(source, filename=str(p))
             except SyntaxError as e:
                 raise AnalysisError(f"{p} does not parse: {e}")
+            # table-driven step sequences (`for step, handler in ((a, x), (b, y)): ...`) are written out, so that every rule sees the
+            # straight-line code such a loop abbreviates (no function of the pinned tree contains one: the view differs only for
+            # refactored variants)
+            for fn_ in [n_ for n_ in ast.walk(tree) if isinstance(n_, (ast.FunctionDef, ast.AsyncFunctionDef))]:
+                if any(isinstance(x_, ast.For) for x_ in ast.walk(fn_)):
+                    fn_.body = unroll_literal_loops(fn_).body
             m = Module(name, p, p.relative_to(self.root).as_posix(), tree, source)
             self.modules[name] = m
             self._index_module(m)
@@ -794,3 +800,62 @@ def subst_locals(func_node: ast.AST, expr: ast.AST, depth: int = 3) -> ast.AST:
         if isinstance(out, ast.Name) and isinstance(out.ctx, ast.Load) and out.id in single:
             out = copy.deepcopy(single[out.id])
     return ast.fix_missing_locations(out)
+
+
+def unroll_literal_loops(func_node: ast.AST, max_items: int = 8) -> ast.AST:
+    """copy of the function with every `for x in (<literal items>)` / `for a, b in ((..), (..))` loop replaced by one copy of its body per
+    item (loop variables substituted by the item's expressions).  The sequence may be held in a local that is assigned once.  Loops
+    that leave early (break / continue / else), re-assign their variable or run over anything but a literal are left alone.  A
+    table-driven sequence of steps thereby reads like the straight-line code it abbreviates."""
+    import copy
+    fn = copy.deepcopy(func_node)
+
+    def items_of(loop):
+        it = subst_locals(fn, loop.iter)
+        if not isinstance(it, (ast.Tuple, ast.List)) or not (0 < len(it.elts) <= max_items) or any(isinstance(e, ast.Starred) for e in it.elts):
+            return None
+        tg = loop.target
+        if isinstance(tg, ast.Name):
+            names = [tg.id]
+            rows = [[e] for e in it.elts]
+        elif isinstance(tg, (ast.Tuple, ast.List)) and all(isinstance(t, ast.Name) for t in tg.elts):
+            names = [t.id for t in tg.elts]
+            if not all(isinstance(e, (ast.Tuple, ast.List)) and len(e.elts) == len(names) for e in it.elts):
+                return None
+            rows = [list(e.elts) for e in it.elts]
+        else:
+            return None
+        body_nodes = [x for st in loop.body for x in ast.walk(st)]
+        if loop.orelse or any(isinstance(x, (ast.Break, ast.Continue, ast.FunctionDef, ast.Lambda)) for x in body_nodes):
+            return None
+        if any(isinstance(x, ast.Name) and x.id in names and isinstance(x.ctx, (ast.Store, ast.Del)) for x in body_nodes):
+            return None
+        return names, rows
+
+    class _U(ast.NodeTransformer):
+        def visit_FunctionDef(self, node):
+            if node is not fn:
+                return node
+            self.generic_visit(node)
+            return node
+
+        def visit_For(self, node):
+            self.generic_visit(node)
+            spec = items_of(node)
+            if spec is None:
+                return node
+            names, rows = spec
+            out = []
+            for row in rows:
+                env = dict(zip(names, row))
+
+                class _B(ast.NodeTransformer):
+                    def visit_Name(self, n):
+                        if isinstance(n.ctx, ast.Load) and n.id in env:
+                            return copy.deepcopy(env[n.id])
+                        return n
+                for st in node.body:
+                    out.append(ast.copy_location(_B().visit(copy.deepcopy(st)), st))
+            return out
+    res = _U().visit(fn)
+    return ast.fix_missing_locations(res)
